@@ -9,10 +9,26 @@ MAX_QNAME = 254
 LIB_ALPHABET = 'abcdefghijklmnopqrstuvwxyzABCDEFGHIJKLMNOPQRSTUVWXYZ0123456789_-'
 
 FIELDS = ('Is', 'RN', 'Fc', 'La', 'Ti', 'CX', 'CY')
+# instrument, run, flow cell, lane, tile, x, y, filter flag (Y = filtered), control number
 VALUES = {
-    'v1': ('NS500414', '628', 'H7YVNBGXC', '1', '11101', '15963', '1046'),
-    'v2': ('M0-12_3', '7', '000000000-K3T5P', '8', '2119', '1', '99999'),
+    'v1': ('NS500414', '628', 'H7YVNBGXC', '1', '11101', '15963', '1046', 'N', '0'),
+    'v2': ('M0-12_3', '7', '000000000-K3T5P', '8', '0119', '1', '99999', 'Y', '18'),     # zero-padded tile
 }
+
+# tags whose value is a phred string carried as header-safe letters (SAM tag table of the package documentation)
+PHRED_TAGS = ('RQ', 'QT', 'lq', 'eq', 'QX', 'BZ', 'QM', 'is', 'H1', 'H3', 'aQ', 'AQ', 'E2', 'EQ')
+# tags the tagger derives itself (never copied from the name) and the GATK tag it renames
+DERIVED = ('MI', 'SM', 'QM', 'ah', 'BK', 'RG', 'BI', 'RP')
+
+# sequencing-index whitelists, from the shipped index files (first entry of each):  config -> alias
+ALIAS = {'A': 'illumina_merged_ThruPlex48S_RP', 'H': 'illumina_merged_ThruPlex48S_RP', 'B': None,
+         'C': 'illumina_i7_indices', 'D': 'illumina_ThruPlex48S_indices'}
+PREVIOUS_LIBRARY = 'prev-Lib_0'
+
+
+def unletters(s):
+    """header-safe letters -> the phred characters they stand for"""
+    return ''.join(chr(33 + LETTERS.index(c)) for c in s)
 
 
 def saturate(quals):
@@ -22,21 +38,48 @@ def saturate(quals):
 
 def header(shape, values, mate, index='ATCACG'):
     """-> (FASTQ header line, expectation dict for the decoded alignment)"""
-    inst, run, fc, lane, tile, x, y = values
+    inst, run, fc, lane, tile, x, y, filt, ctrl = values
     coords = f'{inst}:{run}:{fc}:{lane}:{tile}:{x}:{y}'
     exp = dict(zip(FIELDS, values))
     exp['name'] = coords
     if shape == 'S1':        # @inst:run:fc:lane:tile:x:y read:filtered:control:index
-        exp.update({'Fi': 'N', 'CN': '0', 'aa': index})
-        return f'@{coords} {mate}:N:0:{index}', exp
+        exp.update({'Fi': filt, 'CN': ctrl, 'aa': index})
+        return f'@{coords} {mate}:{filt}:{ctrl}:{index}', exp
     if shape == 'S2':        # index field absent, as printed by older bcl2fastq: "... 1:N:0::"
-        exp.update({'Fi': 'N', 'CN': '0'})
-        return f'@{coords} {mate}:N:0::', exp
+        exp.update({'Fi': filt, 'CN': ctrl})
+        return f'@{coords} {mate}:{filt}:{ctrl}::', exp
+    if shape == 'S2b':       # ten fields, nothing after the control number
+        exp.update({'Fi': filt, 'CN': ctrl})
+        return f'@{coords} {mate}:{filt}:{ctrl}', exp
     if shape == 'S3':        # coordinates only
         return f'@{coords}', exp
     if shape == 'DEC':       # 3-DEC: @Cluster_s_<lane>_<tile>_<n>; no Illumina coordinates exist
         return f'@Cluster_s_{lane}_{tile}_{x}', {'La': lane, 'Ti': tile}
+    if shape == 'SCMO':
+        # a read that already went through the demultiplexer once: k:v;k:v header as the bulk strategy writes it
+        # (the instrument keeps its '@', the library of that first pass is part of it)
+        exp.update({'Fi': filt, 'CN': ctrl, 'aa': index})
+        return (f'@Is:@{inst};RN:{run};Fc:{fc};La:{lane};Ti:{tile};CX:{x};CY:{y};Fi:{filt};CN:{ctrl};aa:{index}'
+                f';LY:{PREVIOUS_LIBRARY}'), exp
     raise KeyError(shape)
+
+
+def scd_name(values, variant):
+    """a "Single Cell Discoveries" read name (Illumina coordinates followed by k:v attributes) and what the
+    decoded alignment has to carry: the coordinates, the attributes as written, phred tags as phred characters"""
+    inst, run, fc, lane, tile, x, y, _, _ = values
+    coords = f'{inst}:{run}:{fc}:{lane}:{tile}:{x}:{y}'
+    exp = dict(zip(FIELDS, values))
+    exp['name'] = coords
+    if variant == 'scd':
+        attrs = [('SS', 'GTCATTAG'), ('CB', 'GTCATTAG'), ('QT', 'eeeeaZzA'), ('RX', 'CTGAAC'), ('RQ', 'aaZzAe')]
+    elif variant == 'scd+LY':
+        attrs = [('CB', 'ACGTNACG'), ('RX', 'CTGAAC'), ('RQ', 'azAZeE'), ('LY', 'lib-1_A')]
+    else:
+        raise KeyError(variant)
+    for k, v in attrs:
+        exp[k] = unletters(v) if k in PHRED_TAGS else v
+    return coords + ';' + ';'.join(f'{k}:{v}' for k, v in attrs), exp
 
 
 def library(n, offset=0):
